@@ -46,7 +46,7 @@ type vfBrowser struct {
 	jar    []*vfCookie
 	order  int
 	ua     string
-	issued []*vfCookie // every cookie value ever stored (for replay)
+	issued []*vfCookie     // every cookie value ever stored (for replay)
 	ctx    context.Context // default request context (free-running passes tag requests with the client's name)
 }
 
